@@ -341,6 +341,9 @@ def run_tcd(case, rng, obs, fail):
     obs["field"] = fieldio.field_json(f)
     obs["scale"] = scale
     obs["orient"] = f.orientation.array
+    # exactly coplanar / antiparallel neighbour triples are Berg-Luescher's exceptional configurations: the lattice
+    # charge is undefined there (the code returns +-1/2 jumps or nan), so nothing is demanded of that method
+    obs["bl_exceptional"] = bl_exceptional(f)
     snap = (f.array.copy(), f.valid.copy())
     res = {}
     for meth in ("continuous", "berg-luescher"):
@@ -351,6 +354,9 @@ def run_tcd(case, rng, obs, fail):
         ch = dft.topological_charge(f, method=meth)
         cha = dft.topological_charge(f, method=meth, absolute=True)
         dV = c0 * c1
+        obs[meth + ":charge"] = (ch, cha)
+        if meth == "berg-luescher" and obs["bl_exceptional"]:
+            continue
         if not near(ch, float(np.sum(q.array)) * dV, scale * dV * q.array.size) or not near(cha, float(np.sum(np.abs(q.array))) * dV, scale * dV * q.array.size):
             fail(f"{meth}: charge {ch} / absolute {cha} is not the integral of the density {float(np.sum(q.array)) * dV} / {float(np.sum(np.abs(q.array))) * dV}")
         obs[meth + ":charge"] = (ch, cha)
@@ -358,9 +364,7 @@ def run_tcd(case, rng, obs, fail):
     if not (np.array_equal(snap[0], f.array) and np.array_equal(snap[1], f.valid)):
         fail("topological_charge_density modified its operand")
     generic = case["tex"] in ("random", "ratsphere", "skyrmion", "zeros")
-    # exactly coplanar / antiparallel neighbour triples are Berg-Luescher's exceptional configurations
-    generic_bl = generic and not bl_exceptional(f)
-    obs["bl_exceptional"] = bl_exceptional(f)
+    generic_bl = generic and not obs["bl_exceptional"]
     nontriv = case["tex"] != "uniform" and max(n) >= 2
     obs["nontrivial"] = nontriv
     obs["tags"] += [f"tex:{case['tex']}", f"masked:{not bool(f.valid.all())}", f"n:{'1' if min(n) == 1 else '>=2'}",
@@ -370,6 +374,8 @@ def run_tcd(case, rng, obs, fail):
     if case["tex"] == "uniform":
         for meth, q in res.items():
             ch, cha = obs[meth + ":charge"]
+            if meth == "berg-luescher" and obs["bl_exceptional"]:
+                continue
             if np.any(np.abs(q.array) > 1e-12 * scale) or abs(ch) > 1e-12 * q.array.size or abs(cha) > 1e-12 * q.array.size:
                 fail(f"{meth}: uniform field {f.array.reshape(-1, 3)[0].tolist()} has non-zero density (max {np.abs(q.array).max()}) or charge {obs[meth + ':charge']}")
     # ---- invariances on the real code
@@ -394,7 +400,7 @@ def run_tcd(case, rng, obs, fail):
         q0 = res[meth].array
         ch0, cha0 = obs[meth + ":charge"]
         for name, g in variants.items():
-            if meth == "berg-luescher" and name in ("rotated", "rescaled") and not generic_bl:
+            if meth == "berg-luescher" and (obs["bl_exceptional"] or (name in ("rotated", "rescaled") and not generic_bl)):
                 continue
             qg = dft.topological_charge_density(g, method=meth).array
             chg = dft.topological_charge(g, method=meth)
